@@ -369,6 +369,19 @@ class Flow:
                     if ext is not None:
                         self.log.append((f.name, "%s masks %s[p] for p < %s, the array has %s elements" % (
                             f.name, sym.show(slot[1]), sym.show(hi), sym.show(ext))))
+            if k not in masks:
+                # several masking calls, loop nests, strided or blocked loops: the elements handed to masking functions are
+                # enumerated on a grid of the dimensions and compared with [0, extent of the array)
+                by_field = {}
+                for mo in masked_objs:
+                    slot = sym.idx(mo["obj"], ZERO)
+                    if slot[0] == "idx" and slot[1][0] == "fld" and slot[1][1] == r0:
+                        by_field.setdefault(slot[1][2], []).append((mo, slot[2]))
+                for fld_, lst in by_field.items():
+                    ext = self.field_extent(rec, fld_)
+                    if ext is not None and self._covers(f, roots, lst, ext, rec):
+                        masks.add(k)
+                        break
         # ---------------- justify clear writes
         remaining = []
         for cw in clear:
@@ -407,6 +420,47 @@ class Flow:
         self.active.discard(key)
         self.memo[key] = res
         return res
+
+    def _covers(self, f, roots, lst, ext, rec):
+        """lst = [(masking call piece, index term)]: do the indices, over all iterations of the calls' loop nests, equal
+        [0, ext) for every assignment of the dimensions in 1..3 (guards evaluated)?"""
+        from . import concrete
+        C = lambda t: self.canon_dims(t, roots)
+        terms = [ext] + [C(ix) for _, ix in lst] + [C(l[k_]) for mo, _ in lst for l in mo["loops"] if "var" in l for k_ in ("lo", "hi", "step")]
+        loopvars = {l["var"] for mo, _ in lst for l in mo["loops"] if "var" in l}
+        dims = sorted({a for t in terms for a in sym.atoms(sym.trip_counts_nonneg(t)) if a not in loopvars and a[0] in ("sym", "fld")}, key=repr)
+        dims = [d for d in dims if not any(sym.contains(d, lv) for lv in loopvars)]
+        if len(dims) > 4:
+            return False
+        # relations between the dimensions of one parameter object (kpl = (k+1)*l) come from the constructors
+        try:
+            for vals in itertools.product((1, 2, 3), repeat=len(dims)):
+                env = dict(zip(dims, vals))
+                rel_ok = True
+                for d in dims:
+                    if d[0] == "sym" and d[1].endswith(".kpl"):
+                        kd = next((x for x in dims if x[0] == "sym" and x[1].endswith(".k")), None)
+                        ld = next((x for x in dims if x[0] == "sym" and x[1] == d[1][:-3] + "l"), None)
+                        if kd is not None and ld is not None and env[d] != (env[kd] + 1) * env[ld]:
+                            rel_ok = False
+                if not rel_ok:
+                    continue
+                seen = []
+                for mo, ix in lst:
+                    loops = [dict(l, lo=sym.trip_counts_nonneg(C(l["lo"])), hi=sym.trip_counts_nonneg(C(l["hi"])), step=C(l["step"])) for l in mo["loops"]]
+                    for e2 in concrete.iterate(loops, env):
+                        if any(not eval_term(C(g), e2) for g in mo["guards"]):
+                            continue
+                        x = eval_term(sym.trip_counts_nonneg(C(ix)), e2)
+                        if x is None:
+                            return False
+                        seen.append(x)
+                ev = eval_term(ext, env)
+                if ev is None or sorted(seen) != list(range(ev)):
+                    return False
+        except Exception:
+            return False
+        return True
 
     # ------------------------------------------------------------------ slot-wise coverage on a small grid
     def coverage(self, f, roots, cw, mos):
